@@ -5,7 +5,7 @@ OUT=/verif/seeded/RESULTS.txt; : > $OUT.tmp
 for d in seeded/*/; do
   n=$(basename $d); p=${n%%-*}
   [ -f $d/patch.diff ] || continue
-  r=$(tools/seeded.sh $p $d/patch.diff 2>&1)
+  r=$(tools/seeded.sh $p /verif/$d/patch.diff 2>&1)
   rc=$(echo "$r" | grep -o 'exit=[0-9]*' | head -1)
   cls=$(echo "$r" | grep -o 'class=[A-Z-]*' | sort -u | tr '\n' ' ')
   echo "$n $rc $cls" | tee -a $OUT.tmp
